@@ -267,6 +267,12 @@ inductive CoeffArg where
   | none                       -- `None`
   | seq (cs : List Rat)        -- list / tuple / 1-D ndarray of numbers
   | scalar (x : Rat)           -- a bare number (has no `len`)
+  /-- something with a length that is not a flat sequence (`np.ndim ≠ 1`): nested list, 2-D ndarray, `str`,
+  `dict` … ; `len` is what `len()` returns -/
+  | notFlat (len : Nat)
+  /-- a non-empty flat sequence with an element that cannot be stored as a double: text (`ValueError` of the
+  conversion) or, with `cplx`, a complex number (`TypeError`) -/
+  | badElems (cplx : Bool)
   deriving DecidableEq, Repr, Inhabited
 
 /-- what can be assigned to `expansion_origin` -/
@@ -283,6 +289,12 @@ def setCoeffs (a : Arr) : CoeffArg → Except Err Arr
   | .seq cs =>
     if cs.length = 0 then .ok { a with coeffs := none }
     else .ok { a with coeffs := some cs }                    -- (re)size the dataset and write doubles
+  | .notFlat n =>
+    if n = 0 then .ok { a with coeffs := none }              -- `""`, `{}`, an empty 2-D array: `len(coeff) == 0`
+    else .error .valueError                                  -- `np.ndim(coeff) != 1`
+  | .badElems cplx =>
+    -- `write_data` converts to double before the dataset is created or resized
+    .error (if cplx then .typeError else .valueError)
 
 /-- `expansion_origin.setter`: `check_attr_type(origin, Number)` then `set_attr` (None deletes) -/
 def setOrigin (a : Arr) : OriginArg → Except Err Arr
